@@ -16,7 +16,7 @@ F = CFGF
 INC = Opt('func', b'include', func='include')
 SUB = [Opt('int', b'a', 0, 1), Opt('strl', b'l', 0, None), INC]
 SCHEMA = [Opt('int', b'i', 0, 7), Opt('str', b's', 0, b'd'), Opt('intl', b'il', 0, b'{1}'), Opt('sec', b'sec', 0, None, SUB),
-          Opt('sec', b'm', F['MULTI'], None, SUB), INC, Opt('bool', b'b', 0, 0)]
+          Opt('sec', b'm', F['MULTI'], None, SUB), INC, Opt('bool', b'b', 0, 0), Opt('func', b'load', func='nest:2')]
 LIMIT = 10
 
 
@@ -140,6 +140,22 @@ def generate(rng, tier):
                 lines += ['parse_buf 0 ' + hx(flat), 'parse_buf 1 ' + hx(main), 'dump 0', 'dump 1']
                 n += 1
                 yield Scn('insec%d' % n, lines, {'class': 'in-section/' + placement, 'kind': 'eq', 'depth': deep + 1, 'p0': p0, 'p1': p0 + 1})
+    # an included file whose function callback parses a text into ANOTHER context (accepted, rejected, with its own
+    # include): the rest of the included file is read as if it were in place
+    for k, inner in enumerate([b'i = 9\n', b'i = = 9\n', b'include("in2.conf")\n', b's = "open\n', b'']):
+        for deep in (1, 2):
+            q = b"'" + inner + b"'"
+            lines = gen.prelude(SCHEMA, 0) + ['init 1 0 0', 'init 2 0 0']
+            body = b'i = 4\nload(' + q + b')\ns = "after"\nil += {7}\n'
+            lines.append('file %s file %s' % (hx(b'in2.conf'), hx(b'b = on\n')))
+            lines.append('file %s file %s' % (hx(b'in1.conf'), hx(body if deep == 1 else b'include("in1b.conf")\nil += {8}\n')))
+            lines.append('file %s file %s' % (hx(b'in1b.conf'), hx(body)))
+            flat = body + (b'il += {8}\n' if deep == 2 else b'') + b'b = on\n'
+            p0 = len(lines)
+            lines += ['parse_buf 0 ' + hx(flat), 'parse_buf 1 ' + hx(b'include("in1.conf")\nb = on\n'), 'dump 0', 'dump 1']
+            n += 1
+            yield Scn('nested%d' % n, lines, {'class': 'nested-parse-in-include', 'kind': 'eq', 'depth': deep + 1, 'p0': p0, 'p1': p0 + 1,
+                                             'impl_only': True})
     # chains around the depth limit
     for depth in (1, 2, LIMIT - 1, LIMIT, LIMIT + 1, LIMIT + 2):
         lines = gen.prelude(SCHEMA, 0)
